@@ -7,7 +7,7 @@ point at *every stream operation* (poll_ready / start_send / poll_flush / read) 
 
 1. TLC (fault enumeration): two connections of one endpoint (they displace each other), every fault
    point, Allow/Deny, good/bad proof, every termination cause (client close, disconnect by id / by
-   endpoint, Clients::shutdown, displacement): OnConnectOnce, AtMostOneDisconnect,
+   endpoint, Clients::shutdown, displacement, keep-alive pong timeout): OnConnectOnce, AtMostOneDisconnect,
    DisconnectOnlyAfterAllow (same id), GuardConservation, DeniedNeverRegistered, IdsDistinct,
    ExactlyOnceAtEnd, and under fairness AdmittedEventuallyDisconnected.
 2. Anti-vacuity: GuardLate = TRUE (guard constructed after the confirmation write) is refuted
@@ -56,7 +56,7 @@ META = {
     "design_ref": "§6 C07",
 }
 
-ENV_EVENTS = ("ping", "deliver", "displace", "close", "disc_id", "disc_key", "shutdown")
+ENV_EVENTS = ("ping", "deliver", "tick", "pongback", "pong_timeout", "displace", "close", "disc_id", "disc_key", "shutdown")
 
 
 def with_fault(conn):
@@ -217,8 +217,8 @@ def run(ctx):
             judge_fault(ctx, rep, run_fault(ctx, [rep], "c07-replay")[0], drift, set())
         return
     acts = ["IoStep", "IoFail", "Start", "ReadAuth", "Verify", "NewRequest", "OnConnect", "MakeGuard", "RetGuard",
-            "BuildConfig", "Register", "Unwind", "SvcPing", "DoPong", "SvcDeliver", "ActorMsg", "LoopFlush", "Displace", "Close",
-            "Disconnect", "Shutdown", "CancelObserved", "Exit", "DropGuard"]
+            "BuildConfig", "Register", "Unwind", "SvcPing", "DoPong", "SvcDeliver", "SvcTick", "SvcPongBack", "PongTimeout",
+            "ActorMsg", "LoopFlush", "Displace", "Close", "Disconnect", "Shutdown", "CancelObserved", "Exit", "DropGuard"]
     # 1. fault enumeration on the model: two connections of the same endpoint (safety), then liveness
     ctx.tlc("relay", "MC_RelayAdmission", cfg="RelayAdmission.cfg", mode="mc", workers=ctx.pick(4, 8), timeout=3000, heap="8g",
             constants={"Conns": '{"c1", "c2"}', "MaxFaults": ctx.pick(1, 2), "GuardLate": "FALSE", "Script": '"full"',
